@@ -35,6 +35,7 @@ func H_C07_results_independent() {
 	hResultsIndependent(x, y, k1)
 }
 
+// H_C11_results_independent: the same for the other value kinds (strings, binaries, lists, doubles, objects, maps).
 func H_C11_results_independent() {
 	k1 := 2 + vChoice("first", 6)
 	x := zResultValue(k1, "x")
